@@ -13,7 +13,7 @@ import sys, re, struct, argparse, subprocess, hashlib, json
 sys.path.insert(0, __import__('os').path.dirname(__file__))
 from irparse import *
 
-LIBC_PASSTHRU = {'strlen', 'strcmp', 'strncmp', 'memcmp', 'memcpy', 'memmove', 'memset', 'abs', 'strcpy', 'strncpy',
+LIBC_PASSTHRU = {'strcmp', 'strncmp', 'memcmp', 'memcpy', 'memmove', 'memset', 'abs', 'strcpy', 'strncpy',
                  'strchr', 'memchr'}
 INTRIN_DROP = ('llvm.lifetime.', 'llvm.dbg.', 'llvm.stackrestore', 'llvm.assume', 'llvm.prefetch',
                'llvm.experimental.noalias.scope.decl', 'llvm.donothing', 'llvm.var.annotation', 'llvm.invariant.')
@@ -310,8 +310,8 @@ class Emitter:
                 return '((uint8_t)(%s %s %s))' % (ea, '==' if pred == 'eq' else '!=', eb)
             # relational pointer comparisons stay pointer comparisons (real code only compares within one array;
             # CBMC folds same-object comparisons to offset comparisons, casts to integers would make them symbolic)
-            cop = {'ugt': '>', 'uge': '>=', 'ult': '<', 'ule': '<=', 'sgt': '>', 'sge': '>=', 'slt': '<', 'sle': '<='}[pred]
-            return '((uint8_t)(%s %s %s))' % (ea, cop, eb)
+            cop = {'ugt': 'gt', 'uge': 'ge', 'ult': 'lt', 'ule': 'le', 'sgt': 'gt', 'sge': 'ge', 'slt': 'lt', 'sle': 'le'}[pred]
+            return '((uint8_t)vr_ptr_%s(%s, %s))' % (cop, ea, eb)
         if pred in ('eq', 'ne'): return '((uint8_t)(%s %s %s))' % (ea, '==' if pred == 'eq' else '!=', eb)
         if pred[0] == 's':
             ea = s.sgn(ea, t); eb = s.sgn(eb, t)
@@ -732,6 +732,10 @@ class FuncEmit:
                 sz = E.L.size(info['byval']); t = s.tmp()
                 s.w('char* %s = (char*)vr_alloca(%d); memcpy(%s, %s, %d);' % (t, sz, t, e, sz)); e = t
             cargs.append(e)
+        if name == 'strlen' and name not in E.mod.funcs:
+            finish('(uint64_t)vr_strlen(%s)' % cargs[0], False); return
+        if name in ('memcpy', 'memmove', 'memset') and name not in E.mod.funcs:
+            finish('(char*)vr_%s(%s)' % (name, ', '.join(cargs)), False); return
         if name is not None:
             E.ref_global(name)
             cn = E.gname(name)
